@@ -160,7 +160,8 @@ func runVarCase(c *Ctx, ops []string) {
 						case variants.TimeSpan:
 							host = v.AsTimeSpan()
 						case variants.Array:
-							callerList = append([]*variants.Variant(nil), v.AsArray()...)
+							// the caller's own list, with spare capacity (an empty list with capacity is still the caller's)
+							callerList = append(make([]*variants.Variant, 0, len(v.AsArray())+8), v.AsArray()...)
 							callerSlot = k
 							host = callerList
 						}
@@ -196,7 +197,7 @@ func runVarCase(c *Ctx, ops []string) {
 					case variants.TimeSpan:
 						slots[k].SetAsTimeSpan(v.AsTimeSpan())
 					case variants.Array:
-						callerList = append([]*variants.Variant(nil), v.AsArray()...)
+						callerList = append(make([]*variants.Variant, 0, len(v.AsArray())+8), v.AsArray()...)
 						callerSlot = k
 						slots[k].SetAsArray(callerList)
 					}
@@ -275,9 +276,12 @@ func runVarCase(c *Ctx, ops []string) {
 					out = fmt.Sprintf("%d/%s/%d", slots[k].Type(), encVariant(slots[k]), slots[k].Length())
 				case "mut":
 					// change the caller's list after it was handed to the variant
-					if callerSlot >= 0 && len(callerList) > 0 {
-						callerList[0] = variants.VariantFromString("MUTATED")
-						callerList = append(callerList[:0], callerList...)
+					if callerSlot >= 0 {
+						if len(callerList) > 0 {
+							callerList[0] = variants.VariantFromString("MUTATED")
+						}
+						// ... and keep using it: appending writes into its spare capacity
+						callerList = append(callerList, variants.VariantFromString("APPENDED-BY-THE-CALLER"))
 					}
 				}
 			}()
@@ -398,6 +402,9 @@ func propC20(c *Ctx) {
 		}
 		runVarCase(c, ops)
 	}
+	// the caller keeps using an EMPTY list (with capacity) it handed over
+	runVarCase(c, []string{"set:0:a[]", "sidx:0:0:i5", "mut:0", "obs:0", "sidx:0:1:i6", "mut:0", "obs:0"})
+	runVarCase(c, []string{"new:1:list:a[]", "sidx:1:1:s97", "mut:1", "obs:1", "len:1:4", "mut:1", "obs:1"})
 	// the D26 / D27 patterns, always
 	runVarCase(c, []string{"set:0:a[i1/i2]", "cln:1:0", "sidx:1:0:i9", "obs:0", "eq:0:1"})
 	runVarCase(c, []string{"set:0:a[i1/i2]", "set:1:a[i1/i2]", "eq:0:1", "asg:2:0", "sidx:2:1:s97", "obs:0", "len:2:5", "obs:0"})
